@@ -777,6 +777,10 @@ func nmove(wdt float64, subd int, zeit int, g *GlobalVarsMain, l *NitroSharedVar
 		} else if g.Q1[z] < 0 && g.Q1[z-1] >= 0 {
 			l.KONV[z0] = (Carray[z+1]*g.Q1[z] - Carray[z-1]*g.Q1[z-1]) / g.DZ.Num
 		}
+		if z == g.DRAIDEP && g.Q1[z] < 0 {
+			// the drain takes its water (and N) out of the layer also when the net flux through the lower boundary is upward
+			l.KONV[z0] = l.KONV[z0] + Carray[z]*g.QDRAIN/g.DZ.Num
+		}
 	}
 	g.DRAINLOSS = g.DRAINLOSS + g.QDRAIN*Carray[g.DRAIDEP]/g.DZ.Num*100*g.DZ.Num
 
